@@ -46,6 +46,9 @@ const (
 	bA                   // alias of recycled storage
 	bU                   // unknown
 	bR                   // a request/response object (not text; binder argument)
+	bC                   // a CONTAINER (slice / map) that is emptied and refilled for every request: whoever
+	//                      holds it sees the later contents, even when each element is a private copy.
+	//                      Kept by identity and re-slicing, dropped by element access (index, range).
 )
 
 var (
@@ -54,7 +57,11 @@ var (
 	cA = cls{bits: bA}
 	cU = cls{bits: bU}
 	cR = cls{bits: bR}
+	cC = cls{bits: bC}
 )
+
+// elem: class of an element taken out of a container of class a
+func (a cls) elem() cls { return cls{bits: a.bits &^ bC, params: a.params} }
 
 func (a cls) join(b cls) cls { return cls{a.bits | b.bits, a.params | b.params} }
 func (a cls) empty() bool    { return a.bits == 0 && a.params == 0 }
@@ -89,7 +96,7 @@ func (a cls) names() []string {
 	if a.bits&bI != 0 {
 		out = append(out, "imm")
 	}
-	if a.bits&bA != 0 {
+	if a.bits&(bA|bC) != 0 {
 		out = append(out, "alias")
 	}
 	if a.bits&bR != 0 {
@@ -303,26 +310,32 @@ type frame struct {
 	named  []string // named results
 	inLit  int
 	change bool
+	// local variables that are only ever bound to function literals
+	litVars map[string]bool
+	// the function defers something: named results may be rewritten after the return values are set
+	defers bool
 }
 
 // externals: package-qualified functions outside fiber/binder.
 var extOwned = map[string]bool{
 	"utils.CopyString": true, "utils.CopyBytes": true, "utils.ToLower": true, "utils.ToUpper": true,
-	"utils.StatusMessage": true, "utils.GetMIME": true, "utils.ToString": true, "utils.UUID": true, "utils.UUIDv4": true,
-	"strings.Clone": true, "bytes.Clone": true, "strings.Join": true, "strings.Repeat": true,
+	"utils.StatusMessage": true, "utils.GetMIME": true, "utils.UUID": true, "utils.UUIDv4": true,
+	"strings.Clone": true, "bytes.Clone": true,
 	"fmt.Sprintf": true, "fmt.Sprint": true, "fmt.Errorf": true, "errors.New": true,
 	"strconv.Itoa": true, "strconv.FormatInt": true, "strconv.FormatUint": true, "strconv.Quote": true,
 	"strconv.ParseInt": true, "strconv.ParseUint": true, "strconv.ParseFloat": true, "strconv.ParseBool": true, "strconv.Atoi": true,
 	"msgp.ReadStringBytes": true, "msgp.ReadUint8Bytes": true, "msgp.ReadBoolBytes": true,
-	"filepath.Abs": true, "filepath.FromSlash": true, "filepath.ToSlash": true,
 	"http.ParseTime": true, "time.Now": true, "reflect.TypeOf": true,
 	"fasthttp.AcquireCookie": true, "fasthttp.ParseUint": true, "fasthttp.ParseUfloat": true,
-	"bytebufferpool.Get": true, "context.Background": true, "template.New": true,
+	"context.Background": true, "template.New": true,
 	"schema.NewDecoder": true, "net.ParseIP": true, "net.JoinHostPort": true,
 }
 
-// externals returning (a sub-slice of / the same storage as) argument i
+// externals returning (a sub-slice of / the same storage as) argument i. Functions that copy in
+// general but hand back the argument itself for some inputs belong here too: utils.ToString(string),
+// strings.Join of one element, strings.Repeat(s, 1), filepath.Abs/FromSlash/ToSlash of a clean path.
 var extPass = map[string]int{
+	"utils.ToString": 0, "strings.Join": 0, "strings.Repeat": 0, "filepath.Abs": 0, "filepath.FromSlash": 0, "filepath.ToSlash": 0,
 	"utils.UnsafeString": 0, "utils.UnsafeBytes": 0, "utils.Trim": 0, "utils.TrimLeft": 0, "utils.TrimRight": 0,
 	"utils.TrimSpace": 0, "utils.ToLowerBytes": 0, "utils.ToUpperBytes": 0, "utils.IfToLower": 0, "utils.IfToUpper": 0,
 	"utils.ParseVendorSpecificContentType": 0,
@@ -565,17 +578,41 @@ func (fr *frame) ctxField(e ast.Expr) (string, bool) {
 		}
 		break
 	}
-	s, ok := e.(*ast.SelectorExpr)
-	if !ok {
-		return "", false
+	// c.F, and anything nested inside a field (c.F.g.h, c.F[i].g): the class is kept per top-level field
+	for {
+		s, ok := e.(*ast.SelectorExpr)
+		if !ok {
+			return "", false
+		}
+		if ctxLike(fr.typeOf(s.X)) {
+			if _, ok := fr.p.structs["fiber.DefaultCtx"][s.Sel.Name]; ok {
+				return s.Sel.Name, true
+			}
+			return "", false
+		}
+		switch fr.typeOf(s.X) {
+		case "App", "Config", "Route", "Group":
+			return "", false // shared registration-time objects, not part of the pooled context
+		}
+		e = s.X
+		for {
+			switch x := e.(type) {
+			case *ast.ParenExpr:
+				e = x.X
+				continue
+			case *ast.StarExpr:
+				e = x.X
+				continue
+			case *ast.IndexExpr:
+				e = x.X
+				continue
+			case *ast.SliceExpr:
+				e = x.X
+				continue
+			}
+			break
+		}
 	}
-	if !ctxLike(fr.typeOf(s.X)) {
-		return "", false
-	}
-	if _, ok := fr.p.structs["fiber.DefaultCtx"][s.Sel.Name]; ok {
-		return s.Sel.Name, true
-	}
-	return "", false
 }
 
 func nonEmptyStringLit(e ast.Expr) bool {
@@ -663,6 +700,10 @@ func (fr *frame) writeThrough(target ast.Expr, c cls) {
 		fr.p.addField(f, fr.argless(c))
 		return
 	}
+	if f, ok := fr.sharedField(target); ok {
+		fr.p.addField(f, sharedBits(c))
+		return
+	}
 	id := rootIdent(target)
 	if id == nil || !fr.isLocal(id.Name) {
 		return
@@ -696,11 +737,57 @@ func (fr *frame) argless(c cls) cls {
 	return c
 }
 
+// sharedField: e is `X.F` (possibly indexed / sliced) with X one of the shared registration-time
+// objects (App, Config, Route, Group). Writes into them are recorded per "Type.F" like the fields of
+// DefaultCtx, so request text parked in such an object is seen by whoever reads it back.
+func (fr *frame) sharedField(e ast.Expr) (string, bool) {
+	for {
+		switch x := e.(type) {
+		case *ast.ParenExpr:
+			e = x.X
+			continue
+		case *ast.StarExpr:
+			e = x.X
+			continue
+		case *ast.IndexExpr:
+			e = x.X
+			continue
+		case *ast.SliceExpr:
+			e = x.X
+			continue
+		}
+		break
+	}
+	s, ok := e.(*ast.SelectorExpr)
+	if !ok {
+		return "", false
+	}
+	switch t := fr.typeOf(s.X); t {
+	case "App", "Config", "Route", "Group":
+		return t + "." + s.Sel.Name, true
+	}
+	return "", false
+}
+
+// sharedBits: of what is stored into a shared object only request storage (alias / copy-iff-Immutable)
+// is kept; registration code legitimately stores data this interpreter does not follow (parsed route
+// segments, handler lists ...), which comes from the application, never from request buffers.
+func sharedBits(c cls) cls { return cls{bits: c.bits & (bA | bI)} }
+
 func (p *prog) addField(f string, c cls) {
 	if d := os.Getenv("C06_DEBUG_FIELD"); d == f {
 		fmt.Fprintf(os.Stderr, "field %s += %v (in %s)\n", f, c.names(), p.cur)
 	}
 	p.nfields[f] = p.nfields[f].join(c)
+}
+
+// notLit: name was bound to something that is not a function literal; remember it across the
+// iterations of the per-function fixpoint (env persists, so does this marker).
+func (fr *frame) notLit(name string) {
+	if _, ok := fr.env["\x00notlit:"+name]; !ok {
+		fr.env["\x00notlit:"+name] = cO
+		fr.change = true
+	}
 }
 
 func (fr *frame) set(name string, c cls) {
@@ -749,6 +836,9 @@ func (fr *frame) eval(e ast.Expr) cls {
 		if x.Op == token.AND {
 			return fr.eval(x.X)
 		}
+		if x.Op == token.ARROW {
+			return fr.eval(x.X).join(cU) // received from a channel: whatever was sent, not tracked
+		}
 		fr.eval(x.X)
 		return cO
 	case *ast.BinaryExpr:
@@ -767,7 +857,7 @@ func (fr *frame) eval(e ast.Expr) cls {
 			return fr.eval(x.X) // generic instantiation
 		}
 		fr.eval(x.Index)
-		return fr.eval(x.X)
+		return fr.eval(x.X).elem()
 	case *ast.IndexListExpr:
 		return fr.eval(x.X)
 	case *ast.TypeAssertExpr:
@@ -805,6 +895,10 @@ func (fr *frame) evalSelector(x *ast.SelectorExpr) (res cls) {
 		}()
 	}
 	if id, ok := x.X.(*ast.Ident); ok && fr.p.imports[id.Name] && !fr.isLocal(id.Name) {
+		q := id.Name + "." + x.Sel.Name
+		if _, isFn := extPass[q]; isFn || extOwned[q] || id.Name == "unsafe" || id.Name == "reflect" {
+			return cU // a function of another package used as a value (not called here): not tracked
+		}
 		return cO // package-level constant / variable of another package (status codes, MIME names ...)
 	}
 	if f, ok := fr.ctxField(x); ok {
@@ -828,7 +922,8 @@ func (fr *frame) evalSelector(x *ast.SelectorExpr) (res cls) {
 	}
 	switch bt {
 	case "Route", "App", "Config", "Group":
-		return cO // registration-time data, never rewritten per request
+		// registration-time data; plus whatever any function of the package stores there
+		return cO.join(fr.p.fields[bt+"."+x.Sel.Name])
 	}
 	return fr.eval(x.X)
 }
@@ -855,11 +950,23 @@ func (fr *frame) evalCall(x *ast.CallExpr, idx int) cls {
 	}
 	switch f := fun.(type) {
 	case *ast.ArrayType, *ast.MapType, *ast.InterfaceType, *ast.FuncType, *ast.ChanType:
-		fr.evalArgs(x.Args)
+		a := fr.evalArgs(x.Args)
+		if at, ok := f.(*ast.ArrayType); ok && len(x.Args) == 1 && len(a) == 1 {
+			// []byte(s) of a string copies; a slice-to-slice conversion ([]byte(b), []string(named)) does not
+			_ = at
+			if t := fr.typeOf(x.Args[0]); t != "string" && fr.p.aliases[fr.f.pkg+"."+t] != "string" {
+				if _, lit := x.Args[0].(*ast.BasicLit); !lit {
+					return a[0].join(cO) // operand not known to be a string: may be the identity conversion
+				}
+			}
+		}
 		return cO // conversion to a slice type copies ([]byte(s))
 	case *ast.ParenExpr:
-		fr.evalArgs(x.Args)
-		return cO
+		c := cO // (*T)(p), (T)(v): a conversion, the operand's storage is kept
+		for _, a := range fr.evalArgs(x.Args) {
+			c = c.join(a)
+		}
+		return c
 	case *ast.Ident:
 		if !fr.isLocal(f.Name) {
 			if f.Name == "any" || f.Name == "error" {
@@ -870,7 +977,18 @@ func (fr *frame) evalCall(x *ast.CallExpr, idx int) cls {
 				return c // boxing into an interface keeps the storage
 			}
 			if basicTypes[f.Name] {
-				fr.evalArgs(x.Args)
+				a := fr.evalArgs(x.Args)
+				if f.Name == "string" && len(x.Args) == 1 && len(a) == 1 {
+					// string(s) of a value that already is a string (or a named string type) is the
+					// identity: no copy. Only []byte / rune / integer operands allocate.
+					t := fr.typeOf(x.Args[0])
+					if t == "string" || fr.p.aliases[fr.f.pkg+"."+t] == "string" {
+						return a[0]
+					}
+					if _, lit := x.Args[0].(*ast.BasicLit); t == "" && !lit && !a[0].ownedOnly() {
+						return a[0].join(cO) // operand type not known: may be a (named) string
+					}
+				}
 				return cO // string(b), int(x) ...
 			}
 			switch f.Name {
@@ -890,7 +1008,15 @@ func (fr *frame) evalCall(x *ast.CallExpr, idx int) cls {
 					c = c.join(fr.eval(a))
 				}
 				return c
-			case "make", "new", "len", "cap", "copy", "min", "max", "clear", "delete", "panic", "recover", "print", "println":
+			case "clear", "delete":
+				fr.evalArgs(x.Args)
+				if len(x.Args) > 0 {
+					if fld, ok := fr.ctxField(x.Args[0]); ok {
+						fr.p.addField(fld, cC) // emptied in place and reused
+					}
+				}
+				return cO
+			case "make", "new", "len", "cap", "copy", "min", "max", "panic", "recover", "print", "println":
 				fr.evalArgs(x.Args)
 				return cO
 			}
@@ -914,7 +1040,16 @@ func (fr *frame) evalCall(x *ast.CallExpr, idx int) cls {
 		}
 		// call of a local function value / function-typed parameter
 		fr.evalArgs(x.Args)
-		return fr.eval(f)
+		if fr.litVars[f.Name] {
+			return fr.eval(f) // bound to function literals only: class of what they return
+		}
+		if _, isParam := fr.pidx[f.Name]; isParam {
+			return fr.eval(f) // callback handed in by the caller: its results are the caller's
+		}
+		return fr.eval(f).join(cU) // some other function value: not understood
+	case *ast.FuncLit:
+		fr.evalArgs(x.Args)
+		return fr.walkLit(f, cU) // func() { ... }() - also under defer / go
 	case *ast.SelectorExpr:
 		name := f.Sel.Name
 		if os.Getenv("C06_DEBUG_EXT") == name {
@@ -936,6 +1071,9 @@ func (fr *frame) evalCall(x *ast.CallExpr, idx int) cls {
 				}
 			}
 			args := fr.evalArgs(x.Args)
+			if q == "bytebufferpool.Get" {
+				return cA // pooled buffer: its bytes (bb.B, bb.Bytes()) are recycled storage; bb.String() copies
+			}
 			if extOwned[q] {
 				return cO
 			}
@@ -963,7 +1101,7 @@ func (fr *frame) evalCall(x *ast.CallExpr, idx int) cls {
 		args := fr.evalArgs(x.Args)
 		if isFast(bt) || fr.fastRooted(f.X) {
 			switch name {
-			case "String", "MultipartForm", "RemoteIP", "RemoteAddr", "LocalAddr", "StatusCode", "ID", "Len", "IsTLS", "Conn", "UserValue":
+			case "String", "MultipartForm", "FormFile", "RemoteIP", "RemoteAddr", "LocalAddr", "StatusCode", "ID", "Len", "IsTLS", "Conn", "UserValue":
 				return cO // allocate / not request text
 			}
 			if fastObject[name] {
@@ -1117,6 +1255,13 @@ func (fr *frame) walkStmt(s ast.Stmt, g guard, litRet *cls) guard {
 				vals = append(vals, fr.eval(r))
 			}
 		}
+		if fr.defers || fr.env["\x00defers"].bits != 0 {
+			for i, n := range fr.named {
+				if i < len(vals) {
+					vals[i] = vals[i].join(fr.env[n])
+				}
+			}
+		}
 		fr.sum.rets = append(fr.sum.rets, retSite{g, vals})
 	case *ast.BlockStmt:
 		fr.walkBlock(x.List, g, litRet)
@@ -1152,7 +1297,7 @@ func (fr *frame) walkStmt(s ast.Stmt, g guard, litRet *cls) guard {
 		}
 		fr.walkBlock(x.Body.List, g, litRet)
 	case *ast.RangeStmt:
-		c := fr.eval(x.X)
+		c := fr.eval(x.X).elem()
 		if id, ok := x.Key.(*ast.Ident); ok {
 			kc := cO // slice / string index
 			if t := fr.typeOf(x.X); strings.HasPrefix(t, "map[") || t == "" || t == "Map" {
@@ -1203,13 +1348,28 @@ func (fr *frame) walkStmt(s ast.Stmt, g guard, litRet *cls) guard {
 			fr.walkBlock(c.(*ast.CaseClause).Body, g, litRet)
 		}
 	case *ast.DeferStmt:
+		if _, ok := fr.env["\x00defers"]; !ok {
+			fr.env["\x00defers"] = cO
+			fr.change = true
+		}
+		fr.defers = true
 		fr.eval(x.Call)
 	case *ast.GoStmt:
 		fr.eval(x.Call)
 	case *ast.LabeledStmt:
 		return fr.walkStmt(x.Stmt, g, litRet)
 	case *ast.IncDecStmt, *ast.BranchStmt, *ast.EmptyStmt:
-	case *ast.SelectStmt, *ast.SendStmt:
+	case *ast.SendStmt:
+		fr.writeThrough(x.Chan, fr.eval(x.Value).join(cU))
+	case *ast.SelectStmt:
+		for _, c := range x.Body.List {
+			if cc, ok := c.(*ast.CommClause); ok {
+				if cc.Comm != nil {
+					fr.walkStmt(cc.Comm, g, litRet)
+				}
+				fr.walkBlock(cc.Body, g, litRet)
+			}
+		}
 	}
 	return g
 }
@@ -1260,6 +1420,22 @@ func (fr *frame) assign(x *ast.AssignStmt) {
 		}
 		switch lv := l.(type) {
 		case *ast.Ident:
+			if fr.litVars == nil {
+				fr.litVars = map[string]bool{}
+			}
+			if i < len(x.Rhs) && len(x.Rhs) == len(x.Lhs) {
+				if _, isLit := x.Rhs[i].(*ast.FuncLit); isLit {
+					if _, bad := fr.env["\x00notlit:"+lv.Name]; !bad {
+						fr.litVars[lv.Name] = true
+					}
+				} else if fr.litVars[lv.Name] {
+					delete(fr.litVars, lv.Name)
+					fr.notLit(lv.Name)
+				}
+			} else {
+				delete(fr.litVars, lv.Name)
+				fr.notLit(lv.Name)
+			}
 			fr.set(lv.Name, c)
 			if x.Tok == token.DEFINE && i < len(x.Rhs) {
 				if t := fr.typeOf(x.Rhs[i]); t != "" {
@@ -1272,7 +1448,14 @@ func (fr *frame) assign(x *ast.AssignStmt) {
 			fr.writeThrough(lv.X, c.join(fr.eval(lv.Index)))
 		default:
 			if f, ok := fr.ctxField(l); ok {
+				if sl, isSl := x.Rhs[min(i, len(x.Rhs)-1)].(*ast.SliceExpr); isSl && sl.Low == nil {
+					if hb, ok := sl.High.(*ast.BasicLit); ok && hb.Value == "0" {
+						c = c.join(cC) // field = x[:0]: the backing array is kept for the next request
+					}
+				}
 				fr.p.addField(f, fr.argless(c))
+			} else if f, ok := fr.sharedField(l); ok {
+				fr.p.addField(f, sharedBits(c))
 			} else {
 				fr.writeThrough(l, c)
 			}
@@ -1381,6 +1564,15 @@ func (p *prog) isText(t ast.Expr, pkg string, depth int) bool {
 					return true
 				}
 			}
+		}
+		return false
+	case *ast.StarExpr:
+		return p.isText(x.X, pkg, depth+1)
+	case *ast.SelectorExpr:
+		// objects of other packages whose exported fields hold request text
+		switch typeStr(x) {
+		case "multipart.Form", "multipart.FileHeader":
+			return true
 		}
 		return false
 	case *ast.ArrayType:
@@ -1499,6 +1691,11 @@ func main() {
 					i++
 				}
 			}
+			if g.recv != "" && v.params&1 != 0 {
+				// state of the receiver object itself (a field of Redirect / DefaultReq / ... that is not
+				// tracked like the fields of DefaultCtx): not the caller's data, and not understood
+				v = cls{bits: v.bits | bU, params: v.params &^ 1}
+			}
 			rs = append(rs, retSite{r.g, []cls{v}})
 		}
 		rows = append(rows, row{kind, name, rs})
@@ -1525,6 +1722,10 @@ func main() {
 		switch {
 		case g.recv == "DefaultCtx":
 			add("ctx", g.name, g)
+		case g.recv == "DefaultReq":
+			add("ctx", "Req."+g.name, g)
+		case g.recv == "DefaultRes":
+			add("ctx", "Res."+g.name, g)
 		case g.recv == "Redirect":
 			add("redirect", "Redirect."+g.name, g)
 		case g.recv == "" && takesCtx(g):
@@ -1643,11 +1844,35 @@ func (p *prog) binderRows(g *fn) []row {
 		}
 		return true
 	})
-	if !found {
+	// what reaches the decoder: every argument of parse(name, out, data, files...) behind `out`,
+	// i.e. the maps formatBindData / assignBindData / parseParamSquareBrackets have filled
+	var data cls
+	parsed := false
+	ast.Inspect(g.decl.Body, func(n ast.Node) bool {
+		call, ok := n.(*ast.CallExpr)
+		if !ok {
+			return true
+		}
+		if id, ok := call.Fun.(*ast.Ident); ok && id.Name == "parse" && len(call.Args) >= 3 {
+			for _, a := range call.Args[2:] {
+				data = data.join(fr.eval(a))
+			}
+			parsed = true
+		}
+		return true
+	})
+	if !found && !parsed {
 		return nil
 	}
-	return []row{{"binder", "binder." + g.recv + "." + g.name + ":key", []retSite{{gAlways, []cls{key}}}},
-		{"binder", "binder." + g.recv + "." + g.name + ":value", []retSite{{gAlways, []cls{val}}}}}
+	if !parsed {
+		data = cU
+	}
+	rows := []row{{"binder", "binder." + g.recv + "." + g.name + ":data", []retSite{{gAlways, []cls{data}}}}}
+	if found {
+		rows = append(rows, row{"binder", "binder." + g.recv + "." + g.name + ":key", []retSite{{gAlways, []cls{key}}}},
+			row{"binder", "binder." + g.recv + "." + g.name + ":value", []retSite{{gAlways, []cls{val}}}})
+	}
+	return rows
 }
 
 // bindCallRows: what the methods of fiber.Bind feed to the binders (`bind.Bind(src..., out)`).
@@ -1670,7 +1895,53 @@ func (p *prog) bindCallRows(g *fn) []row {
 		}
 		return true
 	})
-	return rows
+	if len(rows) > 0 {
+		return rows
+	}
+	// no binder is fed here (Body, Custom): the destination may only be handed on to another
+	// method of Bind (which has its own row), to a custom binder's Parse (application code) or to
+	// the error / validation wrappers; anything else that receives it is not understood.
+	dest := map[string]bool{}
+	for i, t := range g.ptypes {
+		if t == "any" && g.params[i] != "_" {
+			dest[g.params[i]] = true
+		}
+	}
+	if len(dest) == 0 {
+		return nil
+	}
+	c := cO
+	ast.Inspect(g.decl.Body, func(n ast.Node) bool {
+		call, ok := n.(*ast.CallExpr)
+		if !ok {
+			return true
+		}
+		passes := false
+		for _, a := range call.Args {
+			if id, ok := a.(*ast.Ident); ok && dest[id.Name] {
+				passes = true
+			}
+		}
+		if !passes {
+			return true
+		}
+		okCall := false
+		if s, ok := call.Fun.(*ast.SelectorExpr); ok {
+			if id, ok := s.X.(*ast.Ident); ok {
+				if id.Name == g.params[0] && p.funcs["fiber.Bind."+s.Sel.Name] != nil {
+					okCall = true // b.JSON(out) ...
+				}
+				if s.Sel.Name == "Parse" && len(call.Args) == 2 && id.Name != g.params[0] {
+					okCall = true // customBinder.Parse(ctx, out): application code
+				}
+			}
+		}
+		if !okCall {
+			c = c.join(cU)
+		}
+		return true
+	})
+	return []row{{"bind", "Bind." + g.name + ":dispatch", []retSite{{gAlways, []cls{c}}}}}
 }
 
 // frameFor re-creates the converged environment of g (for evaluating sub-expressions of its body).
@@ -1716,22 +1987,43 @@ func (p *prog) convRows() []row {
 		}
 		rows = append(rows, row{"conv", n, rs})
 	}
+	// (2) the installation. Required shape, everything else is reported as unknown:
+	//   * function New of package fiber has, as a DIRECT statement of its body (not nested in another
+	//     condition), `if <x>.Immutable { ... }` whose body assigns getStringImmutable to <y>.getString
+	//     and getBytesImmutable to <y>.getBytes;
+	//   * that statement comes after the last statement of New that assigns the configuration
+	//     (`app.config = ...`), so the flag it tests is the caller's;
+	//   * no other assignment to a selector `.getString` / `.getBytes`, and no assignment to a selector
+	//     `.Immutable`, exists anywhere in package fiber (the composite literal in New that sets the
+	//     zero-copy defaults is not an assignment).
 	swapped := map[string]bool{}
-	for _, g := range p.funcs {
-		if g.pkg != "fiber" {
-			continue
-		}
-		ast.Inspect(g.decl.Body, func(n ast.Node) bool {
-			ifs, ok := n.(*ast.IfStmt)
-			if !ok {
+	why := ""
+	newFn := p.funcs["fiber.New"]
+	swapIdx, cfgIdx := -1, -1
+	if newFn == nil {
+		why = "func New not found"
+	} else {
+		for idx, st := range newFn.decl.Body.List {
+			ast.Inspect(st, func(n ast.Node) bool {
+				if as, ok := n.(*ast.AssignStmt); ok {
+					for _, l := range as.Lhs {
+						if ls, ok := l.(*ast.SelectorExpr); ok && ls.Sel.Name == "config" {
+							cfgIdx = idx
+						}
+					}
+				}
 				return true
+			})
+			ifs, ok := st.(*ast.IfStmt)
+			if !ok || ifs.Init != nil || ifs.Else != nil {
+				continue
 			}
 			if isImm, neg := isImmCond(ifs.Cond); !isImm || neg {
-				return true
+				continue
 			}
-			for _, st := range ifs.Body.List {
-				as, ok := st.(*ast.AssignStmt)
-				if !ok || len(as.Lhs) != len(as.Rhs) {
+			for _, bs := range ifs.Body.List {
+				as, ok := bs.(*ast.AssignStmt)
+				if !ok || len(as.Lhs) != len(as.Rhs) || as.Tok != token.ASSIGN {
 					continue
 				}
 				for i, l := range as.Lhs {
@@ -1740,6 +2032,37 @@ func (p *prog) convRows() []row {
 					if ok1 && ok2 && ((ls.Sel.Name == "getString" && ri.Name == "getStringImmutable") ||
 						(ls.Sel.Name == "getBytes" && ri.Name == "getBytesImmutable")) {
 						swapped[ls.Sel.Name] = true
+						swapIdx = idx
+					}
+				}
+			}
+		}
+		if swapIdx >= 0 && cfgIdx >= swapIdx {
+			why = "Immutable is tested before the configuration is assigned"
+		}
+	}
+	nAssign := map[string]int{}
+	for _, g := range p.funcs {
+		if g.pkg != "fiber" {
+			continue
+		}
+		ast.Inspect(g.decl.Body, func(n ast.Node) bool {
+			switch x := n.(type) {
+			case *ast.AssignStmt:
+				for _, l := range x.Lhs {
+					if ls, ok := l.(*ast.SelectorExpr); ok {
+						switch ls.Sel.Name {
+						case "getString", "getBytes":
+							nAssign[ls.Sel.Name]++
+						case "Immutable":
+							why = "the Immutable flag is assigned in " + g.name
+						}
+					}
+				}
+			case *ast.UnaryExpr:
+				if x.Op == token.AND {
+					if ls, ok := x.X.(*ast.SelectorExpr); ok && (ls.Sel.Name == "getString" || ls.Sel.Name == "getBytes" || ls.Sel.Name == "Immutable") {
+						why = "address of " + ls.Sel.Name + " taken in " + g.name
 					}
 				}
 			}
@@ -1747,9 +2070,12 @@ func (p *prog) convRows() []row {
 		})
 	}
 	for _, n := range []string{"getString", "getBytes"} {
-		if swapped[n] {
+		if swapped[n] && nAssign[n] == 1 && why == "" {
 			rows = append(rows, row{"conv", "Immutable-installs:" + n, []retSite{{gImmOnly, []cls{cO}}}})
 		} else {
+			if os.Getenv("C06_DEBUG") != "" {
+				fmt.Fprintf(os.Stderr, "conv %s: swapped=%v assignments=%d %s\n", n, swapped[n], nAssign[n], why)
+			}
 			rows = append(rows, row{"conv", "Immutable-installs:" + n, []retSite{{gAlways, []cls{cU}}}})
 		}
 	}
